@@ -153,6 +153,9 @@ pub fn run(tier: &str) -> i32 {
             if thorough { 1.0e6 } else { 2.5e4 }
         } else if sc.name.contains("brotli") {
             if thorough { 1.0e6 } else { 2.0e4 }
+        } else if sc.name.starts_with("session/") {
+            // sessions repeat what the single-call scenarios already explore to bound 3
+            if thorough { 1.0e6 } else { 6.0e4 }
         } else if thorough {
             4.0e6
         } else {
@@ -175,7 +178,13 @@ pub fn run(tier: &str) -> i32 {
             println!("  {:<48} calls={:<5} alts={:<5} execs={:<8} {:.2}s", sc.name, st.calls_default, st.alternatives_default, st.executions, t0.elapsed().as_secs_f64());
         }
         total_exec += st.executions;
-        total_points += st.choice_points_default as u64;
+        total_points += st.calls_executed;
+        for d in st.sample_schedules.iter().take(1) {
+            if sc.name.contains("gzip") && rep.get_count("schedule_samples") < 4 {
+                rep.count("schedule_samples", 1);
+                rep.force_sample(json!({"scenario":sc.name,"schedule":"deviations as (call index, alternative#)","deviations":d,"alternatives_at_call":"1..k = short transfer sizes (1, len/2, len-1), then Pending once, Pending twice (async)"}));
+            }
+        }
         rep.eval(st.executions);
         rep.nontrivial(st.executions.saturating_sub(1));
         rep.count("scenarios", 1);
@@ -232,12 +241,14 @@ pub fn run(tier: &str) -> i32 {
     let mut total_exec = total_exec_a.load(Ordering::Relaxed);
     let total_points = total_points_a.load(Ordering::Relaxed);
     let writes_after_close = writes_after_close_a.load(Ordering::Relaxed);
+    let tiny_calls = std::sync::atomic::AtomicU64::new(0);
     // (b) all compositions on tiny directories: every transfer size at every call, unbounded deviations
     for (sc, image_len) in tiny_scenarios(if thorough { 21 } else { 17 }).iter() {
         let runf = |d: &Dev| run_scripted_p(sc, d, true, false);
         let j = judge(sc.role);
         let ex = Explorer { run: &runf, judge: &j, bound: usize::MAX, cap: if thorough { 8_000_000 } else { 600_000 } };
         let st = ex.explore();
+        tiny_calls.fetch_add(st.calls_executed, std::sync::atomic::Ordering::Relaxed);
         // and, for async, sizes + Pending with a deviation bound
         if sc.is_async {
             let runp = |d: &Dev| run_scripted_p(sc, d, true, true);
@@ -270,7 +281,8 @@ pub fn run(tier: &str) -> i32 {
         rep.force_sample(json!({"scenario":sc.name,"mode":"all compositions","image_bytes":image_len,"calls":st.calls_default,"alternatives":st.alternatives_default,"executions":st.executions,"capped":st.capped}));
     }
     rep.set("states", json!(total_exec));
-    rep.set("transitions", json!(total_points.max(1)));
+    rep.set("transitions", json!((total_points + tiny_calls.load(std::sync::atomic::Ordering::Relaxed)).max(1)));
+    rep.set("transitions_meaning", json!("stream calls executed over all explored schedules"));
     rep.set("traces_validated_against_impl", json!(total_exec));
     rep.set("schedules_explored", json!(total_exec));
     rep.set("writes_after_poll_close_in_default_runs", json!(writes_after_close));
